@@ -287,10 +287,16 @@ func (e *Engine) check(st *State, extra *smt.Term, wantModel bool) (smt.Result, 
 	var vars []*smt.Term
 	if wantModel && len(st.Vars) <= 6000 {
 		vars = e.allVars(st)
+		if vars == nil {
+			vars = []*smt.Term{}
+		}
 	}
 	r, m := e.S.CheckPC(st.PC, extra, vars)
 	if r == smt.Sat && vars == nil {
 		m = nil
+	}
+	if r == smt.Sat && wantModel && vars != nil && m == nil {
+		m = map[string]uint64{}
 	}
 	return r, m
 }
